@@ -41,6 +41,8 @@ func privateTree(root, name string) {
 	must(os.MkdirAll(filepath.Join(p, "gone"), 0o755))
 	must(os.WriteFile(filepath.Join(p, "old.bin"), tree.Content(21, 100), 0o644))
 	must(os.WriteFile(filepath.Join(p, "full", "x"), []byte("x"), 0o644))
+	must(os.Symlink("full", filepath.Join(p, "ldir")))
+	must(os.Symlink("old.bin", filepath.Join(p, "lfile")))
 }
 
 type sym struct {
